@@ -52,7 +52,8 @@ def valComp : Comp Val VLbl where
       match s.todo with
       | b :: rest => some { s with todo := rest, okSoFar := s.okSoFar && b }
       | [] => none
-    | .decide, none => if s.todo = [] then some { s with verdict := some s.okSoFar } else none
+    -- the verdict is reached when every attribute was checked — or at the first mismatch (the code raises right there)
+    | .decide, none => if s.todo = [] ∨ s.okSoFar = false then some { s with verdict := some s.okSoFar } else none
     | _, _ => none
 
 
